@@ -191,6 +191,31 @@ class Interp:
                 for t in n.targets:
                     if isinstance(t, ast.Name):
                         s.consts[t.id] = n.value.value
+        # class-level constants computed from other class-level constants (BOTH = STRICT | DROP) and tables of them
+        s.class_tables = {}
+
+        def fold(node):
+            if isinstance(node, ast.Constant) and isinstance(node.value, int) and not isinstance(node.value, bool):
+                return node.value
+            if isinstance(node, ast.Name) and node.id in s.consts:
+                return s.consts[node.id]
+            if isinstance(node, ast.Attribute) and isinstance(node.value, ast.Name) and node.value.id == cls.name and node.attr in s.consts:
+                return s.consts[node.attr]
+            if isinstance(node, ast.BinOp):
+                a, b = fold(node.left), fold(node.right)
+                ops = {ast.BitOr: lambda: a | b, ast.BitAnd: lambda: a & b, ast.Add: lambda: a + b, ast.Sub: lambda: a - b, ast.Mult: lambda: a * b}
+                if type(node.op) in ops:
+                    return ops[type(node.op)]()
+            raise ValueError
+        for n in cls.body:
+            if isinstance(n, ast.Assign) and len(n.targets) == 1 and isinstance(n.targets[0], ast.Name):
+                try:
+                    if isinstance(n.value, (ast.Tuple, ast.List)):
+                        s.class_tables[n.targets[0].id] = [fold(e) for e in n.value.elts]
+                    elif n.targets[0].id not in s.consts:
+                        s.consts[n.targets[0].id] = fold(n.value)
+                except ValueError:
+                    pass
         s.fresh = itertools.count()
         s.nleaves = 0
         s.frame_list_field = None     # set by the driver once roles are known
@@ -367,11 +392,15 @@ class Interp:
                 return v
             if f in s.consts:
                 return LIN(C(s.consts[f]))
+            if f in s.class_tables:
+                return ('tuple', [LIN(C(v)) for v in s.class_tables[f]])
             if f in s.methods:
                 return ('method', f)
             return ('opaque', 'self.' + f)
         if base[0] == 'class' and n.attr in s.consts:
             return LIN(C(s.consts[n.attr]))
+        if base[0] == 'class' and n.attr in s.class_tables:
+            return ('tuple', [LIN(C(v)) for v in s.class_tables[n.attr]])
         if base[0] == 'validator':
             return ('validator', (base[1] + '.' if len(base) > 1 and base[1] else '') + n.attr)
         return ('opaque', ast.unparse(n))
